@@ -126,6 +126,7 @@ class Printer:
         self.src_cache = {}
         self.default_file = None
         self.byref_captures = set()     # decl ids of non-reference variables a lambda captures by reference
+        self.renamed = {}               # decl id -> printed name, for parameters whose C++ name repeats (expanded packs)
 
     # ------------------------------------------------------------------ types
     def ctype_q(self, q):
@@ -147,6 +148,10 @@ class Printer:
     def ctype(self, t):
         d = t.get('desugaredQualType')
         s = t.get('qualType')
+        # a typedef that desugars to a builtin scalar (Eigen's RealScalar, Index, ...) is that scalar, unless the spec maps
+        # the spelled name explicitly
+        if d is not None and strip_cv(d) in SCALARS and s is not None and not any(re.search(rx, strip_cv(s)) for rx, _ in self.types):
+            return SCALARS[strip_cv(d)]
         # try the spelled type first (aliases like nano::vector_t are stable names), then the desugared one
         for q in (s, d):
             if q is None:
@@ -171,8 +176,9 @@ class Printer:
     def note(self, what):
         self.used[what] = self.used.get(what, 0) + 1
 
-    def apply(self, mapping, args, selfexpr=None, node=None, key=''):
-        """mapping: 'fname' | template with {0} {&0} {self} {*self} | '@drop' | '@nondet'; trailing '!' = may throw"""
+    def apply(self, mapping, args, selfexpr=None, node=None, key='', objnode=None):
+        """mapping: 'fname' | template with {0} {&0} {self} {*self} {obj} | '@drop' | '@nondet' | '@fold:g'; trailing '!' = may throw
+        ({obj} = the object expression of a member call printed as a value, without taking its address first)"""
         throws = False
         hoist = False
         if mapping.endswith('!^'):
@@ -188,11 +194,11 @@ class Printer:
             mapping = mapping[:-1]
         self.note(mapping + ('!^' if hoist else ''))
         if hoist:
-            return self.hoist_call(self.apply_plain(mapping, args, selfexpr, node, key), node)
+            return self.hoist_call(self.apply_plain(mapping, args, selfexpr, node, key, objnode=objnode), node)
         if throws:
             self.may_throw = True
             self.pending_throw = True
-        return self.apply_plain(mapping, args, selfexpr, node, key, noted=True)
+        return self.apply_plain(mapping, args, selfexpr, node, key, noted=True, objnode=objnode)
 
     def hoist_call(self, text, node):
         if getattr(self, 'hoisted', None) is None:
@@ -212,7 +218,7 @@ class Printer:
         self.hoisted.append(f'if (nv_thrown) return {self.default_value(self.ret_ctype)};')
         return f'(*{t})' if byref else t
 
-    def apply_plain(self, mapping, args, selfexpr=None, node=None, key='', noted=False):
+    def apply_plain(self, mapping, args, selfexpr=None, node=None, key='', noted=False, objnode=None):
         if mapping == '@drop':
             return '((void)0)'
         if mapping == '@throw':
@@ -225,6 +231,18 @@ class Printer:
         if mapping == '@nondet':
             c = self.ctype(node['type'])
             return self.nondet(c)
+        if mapping.startswith('@fold:'):
+            # f({a, b, c}) over a std::initializer_list of scalars -> g(g(a, b), c) with the binary stub g
+            # (std::min / std::max of a list return the leftmost extremum, which is what the left fold of the
+            # two-argument form computes)
+            els = self.init_list_elements(args[0]) if len(args) == 1 else None
+            if not els:
+                raise Unsupported(f'mapping {mapping!r} needs one non-empty initializer-list argument ({key})')
+            g = mapping[len('@fold:'):]
+            acc = self.expr(els[0])
+            for e in els[1:]:
+                acc = f'{g}({acc}, {self.expr(e)})'
+            return acc
         if '{' not in mapping and '(' not in mapping:
             a = ([selfexpr] if selfexpr is not None else []) + [self.arg(x) for x in args]
             text = f'{mapping}({", ".join(a)})'
@@ -240,6 +258,10 @@ class Printer:
                 return selfexpr
             if w == '*self':
                 return f'(*{selfexpr})'
+            if w == 'obj':
+                if objnode is None:
+                    raise Unsupported(f'mapping {mapping!r}: {{obj}} outside a member call ({key})')
+                return self.expr(objnode[0]) if not objnode[1] else f'(*{self.expr(objnode[0])})'
             if w == 'T':
                 return self.ctype(node['type'])
             addr = w.startswith('&')
@@ -247,7 +269,16 @@ class Printer:
             if i >= len(args):
                 raise Unsupported(f'mapping {mapping!r} wants arg {i} of {key}')
             return self.addr(args[i]) if addr else self.expr(args[i])
-        return re.sub(r'\{(&?\d+|self|\*self|T)\}', sub, mapping)
+        return re.sub(r'\{(&?\d+|self|\*self|obj|T)\}', sub, mapping)
+
+    def init_list_elements(self, n):
+        """element expressions of a braced list passed as std::initializer_list<scalar>, else None"""
+        u = n
+        while isinstance(u, dict) and u.get('kind') in TRANSPARENT | {'CXXStdInitializerListExpr'} and u.get('inner'):
+            u = u['inner'][0]
+        if not isinstance(u, dict) or u.get('kind') != 'InitListExpr':
+            return None
+        return list(u.get('inner', []))
 
     def nondet(self, c):
         if c == 'void':
@@ -467,7 +498,7 @@ class Printer:
             if rd.get('kind') in ('FunctionDecl', 'CXXMethodDecl'):
                 raise Unsupported(f'function reference {rd.get("name")} outside a call')
             ty = rd.get('type', {}).get('qualType', '').rstrip()
-            nm = getattr(self, 'pack_names', {}).get(rd.get('id'), rd['name'])
+            nm = self.renamed.get(rd.get('id'), rd['name'])      # k-th element of an expanded parameter pack: name_k
             if ty.endswith('&') or rd.get('id') in self.byref_captures:
                 return f'(*{nm})'
             return nm
@@ -519,6 +550,14 @@ class Printer:
             raise Unsupported('type trait ' + str(n.get('name')))
         if k == 'CXXMemberCallExpr':
             return self.member_call(n)
+        if k == 'CXXDynamicCastExpr':
+            # dynamic_cast<T>(p): RTTI is outside the printed subset; the spec maps it like a call (key
+            # `dynamic_cast|<target type>|<operand type>`) to a stub over a ghost type tag (assumed contract of RTTI)
+            key = f'dynamic_cast|{strip_cv(qual(n["type"]))}|{strip_cv(qual(inner[0]["type"]))}'
+            m = self.lookup(self.calls, key)
+            if m is None:
+                raise Unsupported(f'dynamic_cast not mapped: {key}')
+            return self.apply(m, inner[:1], node=n, key=key)
         if k in ('CallExpr', 'CXXOperatorCallExpr'):
             return self.call(n)
         if k in ('CXXConstructExpr', 'CXXTemporaryObjectExpr'):
@@ -536,6 +575,10 @@ class Printer:
 
     def template_text(self, ref, name):
         """explicit template arguments of a call as written in the source (`lpNorm<Eigen::Infinity>` -> '|<Eigen::Infinity>')"""
+        txt0 = node_text(ref)      # file recovered by replaying clang's "file only when changed" rule (robust for headers)
+        if txt0:
+            m0 = re.search(re.escape(name) + r'\s*<(.*)>\s*$', txt0, re.S)
+            return f'|<{re.sub(chr(92) + "s+", "", m0.group(1))}>' if m0 else ''
         try:
             rng = ref.get('range', {})
             b, e = rng.get('begin', {}), rng.get('end', {})
@@ -567,11 +610,13 @@ class Printer:
             if self.is_opaque(obj.get('type')) or self.any_opaque_operand(inner[1:]):
                 return self.havoc_value(n, f'member call {name} on erased numerics')
             raise Unsupported(f'member call not mapped: {key}')
-        if me.get('isArrow'):
+        if '{obj}' in m and '{self}' not in m and '{*self}' not in m:
+            selfexpr = None     # value-only mapping: do not materialise a temporary just to take its address
+        elif me.get('isArrow'):
             selfexpr = self.expr(obj)
         else:
             selfexpr = self.addr(obj)
-        return self.apply(m, inner[1:], selfexpr=selfexpr, node=n, key=key)
+        return self.apply(m, inner[1:], selfexpr=selfexpr, node=n, key=key, objnode=(obj, bool(me.get('isArrow'))))
 
     def call(self, n):
         inner = n['inner']
@@ -965,21 +1010,25 @@ class Printer:
         # a function returning a reference returns the address of the returned glvalue
         self.ret_is_ref = (not ret_override and d.get('kind') != 'CXXConstructorDecl' and rett.endswith('&')
                            and rc.endswith('*'))
+        if ret_override and ret_override.rstrip().endswith('&'):
+            # `Fn(..., ret='T&')`: a reference return type that clang prints through a dependent alias
+            # (`typename tbase::tmutableref`): returns the address of the returned glvalue, like any other reference
+            rc = self.ret_ctype = ret_override.rstrip()[:-1].rstrip() + '*'
+            self.ret_is_ref = True
         ps = []
         if self.self_struct:
             ps.append(f'{self.self_struct}* self')
-        # an expanded parameter pack (`ttensors&&... tensors`) repeats one name: the instantiation's parameters get positional
-        # names (tensors_0, tensors_1, ..), uses are resolved by declaration id
         names = [q.get('name') for q in params]
-        self.pack_names = {}
         seen = {}
-        for q in params:
-            nm = q.get('name')
-            if nm is not None and names.count(nm) > 1:
-                self.pack_names[q.get('id')] = f'{nm}_{seen.get(nm, 0)}'
-                seen[nm] = seen.get(nm, 0) + 1
         for k, q in enumerate(params):
-            ps.append(f'{self.ctype(q["type"])} {self.pack_names.get(q.get("id"), q.get("name", f"nv_unnamed{k}"))}')
+            nm = q.get('name', f'nv_unnamed{k}')
+            if nm in names and names.count(nm) > 1:
+                # an expanded parameter pack (`tindices... indices`) repeats one name: the j-th element prints as name_j
+                j = seen.get(nm, 0)
+                seen[nm] = j + 1
+                self.renamed[q.get('id')] = f'{nm}_{j}'
+                nm = f'{nm}_{j}'
+            ps.append(f'{self.ctype(q["type"])} {nm}')
         ps += list(extra_params)
         text = self.stmt(body, 0)
         inits = [c for c in d['inner'] if c.get('kind') == 'CXXCtorInitializer']
